@@ -1,4 +1,3 @@
-import VelaVerif.Gen.Mlw
 /-!
 # Hardware block-traversal order of a weight volume (transcription of `reorder` in `mlw_encode.c`)
 
@@ -12,7 +11,12 @@ weight at `(ofm_z, wy, wx, ifm_z)` or a zero.  The model returns the list of sou
 terminate) is rejected by `reorder`, never defaulted.
 -/
 namespace VelaVerif.Reorder
-open VelaVerif.Gen.Mlw
+
+/-- IFM block depth of the weight stream for part-kernel-first traversal or 16-bit IFM (hardware fact; tied to
+    `mlw_encode.c` by `Props/C07.lean` `codec_constants_match`) -/
+def ifmBlockDepthSmall : Nat := 16
+/-- IFM block depth otherwise -/
+def ifmBlockDepthLarge : Nat := 32
 
 /-- arguments of `mlw_reorder_encode` (the volume is `ofmDepth × kh × kw × ifmDepth`, OHWI) -/
 structure Params where
